@@ -11,15 +11,6 @@ From Romea Require Import Num NumR GeodesyModel LambertModel SrcTie.
 From Romea.gen Require Import RepoConstants SrcFuns.
 Local Open Scope R_scope.
 
-Lemma izr2 : IZR 2 = 1 + 1.
-Proof. replace (IZR 2) with 2 by reflexivity. lra. Qed.
-Lemma dec_2_0 : IZR 2 * powerRZ 10 0 = 1 + 1.
-Proof. simpl. lra. Qed.
-
-Ltac dict := cbn [nadd nsub nmul ndiv nneg nsqrt nsin ncos ntan natan nexp nln nabs natan2 npow npi nofZ nofDec
-                  nltb nleb nzero n_one ntwo ROps].
-Ltac lits := rewrite ?dec_2_0, ?dec_1_0, ?izr2.
-
 (* ---- LambertConverter::computeLatitude ---- *)
 Lemma tie_computeLatitude fuel L e : src_computeLatitude ROps fuel L e = computeLatitude ROps fuel L e.
 Proof.
@@ -28,36 +19,42 @@ Proof.
     assert (H : forall fu x, F fu x = latitude_iter ROps fu L e x) end.
   { induction fu as [|f IH]; intro x; [reflexivity|].
     cbv beta iota fix zeta. rewrite IH. cbn [latitude_iter]. cbv zeta.
-    unfold latitude_step, half_pi, lambert_eps. dict. lits. reflexivity. }
+    unfold latitude_step, half_pi, lambert_eps. dict. lits.
+    match goal with |- (if ?c then _ else _) = (if ?c' then _ else _) => replace c with c' by req; destruct c' end; req. }
   rewrite H. unfold half_pi. dict. lits.
+  match goal with |- match latitude_iter _ _ _ _ ?a with _ => _ end = latitude_iter _ _ _ _ ?b => replace a with b by req end.
   destruct (latitude_iter ROps fuel L e _); reflexivity.
 Qed.
 
 (* ---- LambertConverter::toWGS84 (the repaired code: log(rho / |c|)) ---- *)
 Lemma tie_lambertToWGS84 fuel (pr : projection (T:=R)) e (v : vec2 (T:=R)) :
-  src_lambertToWGS84 ROps fuel (v2x v) (p_xs pr) (v2y v) (p_ys pr) (p_c pr) (p_n pr) e (p_lon0 pr)
+  src_lambertToWGS84 ROps fuel (p_c pr) e (p_lon0 pr) (p_n pr) (v2x v) (v2y v) (p_xs pr) (p_ys pr)
   = match toWGS84 ROps fuel pr e v with None => None | Some w => Some (w_lat w, w_lon w) end.
 Proof.
   unfold src_lambertToWGS84, toWGS84. cbv zeta. rewrite tie_computeLatitude.
   unfold rho_of, theta_of, pow2. dict.
-  destruct (computeLatitude ROps fuel _ e); reflexivity.
+  match goal with |- match computeLatitude _ _ ?a _ with _ => _ end = match match computeLatitude _ _ ?b _ with _ => _ end with _ => _ end =>
+    replace a with b by req end.
+  destruct (computeLatitude ROps fuel _ e); cbn [w_lat w_lon]; req.
 Qed.
 
 (* ---- computeProjectionParameters, secant and tangent ---- *)
 Lemma tie_secantProjection (p : secant_params (T:=R)) (el : ellipsoid (T:=R)) :
-  src_secantProjection ROps (sp_lat1 p) (el_a el) (el_e el) (sp_lat2 p) (sp_lat0 p) (sp_y0 p) (sp_lon0 p) (sp_x0 p)
+  src_secantProjection ROps (el_a el) (el_e el) (sp_lat0 p) (sp_lat1 p) (sp_lat2 p) (sp_lon0 p) (sp_x0 p) (sp_y0 p)
   = (let q := secant_projection ROps p el in (p_lon0 q, p_n q, p_c q, p_xs q, p_ys q)).
 Proof.
   unfold src_secantProjection, secant_projection. cbv zeta. rewrite !tie_isometricLatitude, !tie_grandeNormale.
-  unfold pole_eps, half_pi. dict. lits. cbn [p_lon0 p_n p_c p_xs p_ys]. reflexivity.
+  unfold pole_eps, half_pi. dict. lits. cbn [p_lon0 p_n p_c p_xs p_ys].
+  repeat (f_equal; try req).
+  all: try (match goal with |- (if ?c then _ else _) = (if ?c' then _ else _) => replace c with c' by req; destruct c' end; req).
 Qed.
 
 Lemma tie_tangentProjection (p : tangent_params (T:=R)) (el : ellipsoid (T:=R)) :
-  src_tangentProjection ROps (tp_lat0 p) (el_a el) (el_e el) (tp_k0 p) (tp_y0 p) (tp_lon0 p) (tp_x0 p)
+  src_tangentProjection ROps (el_a el) (el_e el) (tp_k0 p) (tp_lat0 p) (tp_lon0 p) (tp_x0 p) (tp_y0 p)
   = (let q := tangent_projection ROps p el in (p_lon0 q, p_n q, p_c q, p_xs q, p_ys q)).
 Proof.
   unfold src_tangentProjection, tangent_projection. cbv zeta. rewrite !tie_isometricLatitude, !tie_grandeNormale.
-  dict. cbn [p_lon0 p_n p_c p_xs p_ys]. reflexivity.
+  dict. cbn [p_lon0 p_n p_c p_xs p_ys]. req.
 Qed.
 
 (* ---- ECEFConverter::toWGS84 ---- *)
@@ -75,10 +72,13 @@ Proof.
       destruct (Rltb _ d); reflexivity.
     - cbv beta iota fix zeta. cbn [lat_loop]. cbv zeta. unfold ecef_eps. dict.
       destruct (Rltb _ d); [|reflexivity].
-      rewrite IH. unfold lat_body, hnorm. dict. lits. reflexivity. }
+      rewrite IH. unfold lat_body, hnorm. dict. lits. req. }
   match goal with |- match ?F fuel ?x0 ?d0 with _ => _ end = _ =>
     specialize (H fuel x0 d0); destruct (F fuel x0 d0) as [[l d]|] end;
     cbn [option_map fst] in H; revert H;
     unfold lat_first_guess, longitude_of, altitude_of, hnorm, ecef_initial_delta_m, ecef_initial_delta_e; dict; lits;
-    intros H; rewrite <- H; reflexivity.
+    intros H;
+    match goal with H : _ = lat_loop _ _ _ _ _ ?a ?b |- context [lat_loop _ _ _ _ _ ?a' ?b'] =>
+      replace a' with a by req; replace b' with b by req end;
+    rewrite <- H; cbn [g_lat g_lon g_alt]; req.
 Qed.
